@@ -253,8 +253,12 @@ def _store_array(
     identity = lambda a: a
     blockwise_kwargs = blockwise_kwargs or {}
     if region is None or all(r == slice(None) for r in region):
-        if not isinstance(source._zarray, LazyZarrArray) or getattr(
-            source, "_stored_to_target", False
+        if (
+            not isinstance(source._zarray, LazyZarrArray)
+            or getattr(source, "_stored_to_target", False)
+            # readers address blocks of source using its chunks, so it can only live in a
+            # target that is chunked in the same way
+            or not _same_chunks(source, target)
         ):
             ind = tuple(range(source.ndim))
             return blockwise(
@@ -358,6 +362,15 @@ def _store_array(
 
         assert isinstance(out, Array)  # single output
         return out
+
+
+def _same_chunks(source, target) -> bool:
+    """True if target (a lazy array created for source, or an existing array) is chunked like source."""
+    if isinstance(target, LazyZarrArray):
+        return True
+    return getattr(target, "shards", None) is None and _target_write_chunks(
+        target
+    ) == tuple(source.chunksize)
 
 
 def _target_write_chunks(target):
